@@ -125,9 +125,9 @@ func init() {
 		Exhaustive:  nil,
 		Flavours: func(tier string) []string {
 			if tier == "thorough" {
-				return []string{"release", "noopt", "nooptl", "race", "asan", "go126", "go126noopt"}
+				return []string{"release", "386", "noopt", "nooptl", "race", "asan", "go126", "go126noopt"}
 			}
-			return []string{"release", "noopt", "nooptl", "race"}
+			return []string{"release", "386", "noopt", "nooptl", "race"}
 		},
 		Required: []string{"source-string>=2^28-bytes", "long-run/calls>=100000-per-function", "arguments-in-read-only-memory", "cmp/equal", "cmp/prefix", "cmp/differ", "cmp/same-bytelen", "cmp/diff-bytelen", "cmp/empty-vs-nonempty", "upto/a-shorter", "upto/a-equal", "upto/a-longer",
 			"upto/empty-b", "upto/unaligned-b", "upto/dirty-spare-capacity", "cmp/prefix-view-same-base-address", "new/aligned-empty-after-scribble", "upto/long>=8", "upto/short<8", "str/site=arg", "str/site=field", "str/site=elem", "str/site=closure", "str/site=map", "str/site=substr"},
